@@ -531,6 +531,12 @@ def run(ctx):
         for f in d["files"]:
             f["src"] = nsrc - 1 - rng.randrange(4)         # the four laboratory plasmids are the last four sources
             f["labels"] = None
+        # every such directory holds at least one plasmid of the base type itself and one of the variant, as plasmid files
+        for stem_, src_ in (("labbase", nsrc - 4), ("labvariant", nsrc - 3)):
+            if not any(f["stem"] == stem_ for f in d["files"]):
+                d["files"].append({"stem": stem_, "ext": rng.choice(["gb", "gbk"]), "src": src_, "labels": None})
+        if d.get("extensions") and not any(e_.lstrip(".") in ("gb", "gbk") for e_ in d["extensions"]):
+            d["extensions"] = None
         ctx.guard(check_dir, d)
     for _ in range(ctx.budget(400, 20000)):
         members = [[[rng.randrange(8), rng.randrange(100)] for _ in range(rng.randint(0, 5))]
